@@ -5,7 +5,9 @@
       - [string_match] / [multi_match]     parsers.rs StringParser / MultiStringParser match_segments
       - [subdivide] / [trim_match]         lexer.rs 161-251 with the one configuration that uses
                                            them (ANSI block comment: newline subdivider,
-                                           whitespace trim), ASCII only
+                                           whitespace trim), on UTF-8 bytes
+      - [block_comment_match]              the native block_comment matcher of ansi.rs on the
+                                           lexer's [Cursor] (nesting; byte length of the match)
       - [shape]                            the code-only view of a tree that C11 compares *)
 From Sq Require Import Base.Bytes.
 
@@ -70,7 +72,7 @@ Definition string_match (template : str) (t : token) : bool :=
 Definition multi_match (templates : list str) (t : token) : bool :=
   is_code t && mem (upper (t_raw t)) templates.
 
-(** * 3. Block comment subdivision (ASCII) *)
+(** * 3. Block comment subdivision (UTF-8 bytes) *)
 (** [Pattern::legacy] compiles [format!("^{}", regex)]: the subdivider is [^\r\n|\n] — a CRLF
     only at the very start of the remaining text, otherwise the first LF — *)
 Fixpoint search_lf_from (s : str) (i : N) : option (N * N) :=
@@ -84,16 +86,42 @@ Definition search_newline (s : str) : option (N * N) :=
   | _ => search_lf_from s 0
   end.
 
-(** — and the trim pattern is [^[^\S\r\n]+]: a whitespace run (ASCII: tab, VT, FF, space) at the
-    very start only. So of the three branches of [trim_match] only the first can be taken. *)
+(** — and the trim pattern is [^[^\S\r\n]+]: a whitespace run at the very start only. So of the
+    three branches of [trim_match] only the first can be taken. The regex is Unicode-aware:
+    [\s] is the White_Space property, so besides tab, VT, FF and space the run may contain
+    (UTF-8) U+0085, U+00A0, U+1680, U+2000..U+200A, U+2028, U+2029, U+202F, U+205F, U+3000. *)
 Definition is_hspace (b : N) : bool := (b =? 9) || (b =? 11) || (b =? 12) || (b =? 32).
-Fixpoint run_len (s : str) : N :=
-  match s with b :: s' => if is_hspace b then 1 + run_len s' else 0 | [] => 0 end.
-Definition search_ws (s : str) : option (N * N) :=
+(** byte length of the horizontal-whitespace character at the head of [s]; 0 if there is none *)
+Definition ws_len (s : str) : N :=
   match s with
-  | b :: _ => if is_hspace b then Some (0, run_len s) else None
-  | [] => None
+  | [] => 0
+  | b :: r =>
+      if is_hspace b then 1
+      else match r with
+           | [] => 0
+           | c :: r' =>
+               if (b =? 194) && ((c =? 133) || (c =? 160)) then 2
+               else match r' with
+                    | [] => 0
+                    | d :: _ =>
+                        if (b =? 225) && (c =? 154) && (d =? 128) then 3
+                        else if (b =? 226) && (c =? 128) &&
+                                (((128 <=? d) && (d <=? 138)) || (d =? 168) || (d =? 169) || (d =? 175)) then 3
+                        else if (b =? 226) && (c =? 129) && (d =? 159) then 3
+                        else if (b =? 227) && (c =? 128) && (d =? 128) then 3
+                        else 0
+                    end
+           end
   end.
+Fixpoint run_len_f (fuel : nat) (s : str) : N :=
+  match fuel with
+  | O => 0
+  | S f => let n := ws_len s in
+           if n =? 0 then 0 else n + run_len_f f (skipn (N.to_nat n) s)
+  end.
+Definition run_len (s : str) : N := run_len_f (length s) s.
+Definition search_ws (s : str) : option (N * N) :=
+  if ws_len s =? 0 then None else Some (0, run_len s).
 
 Definition take (n : N) (s : str) : str := firstn (N.to_nat n) s.
 Definition drop (n : N) (s : str) : str := skipn (N.to_nat n) s.
@@ -144,6 +172,58 @@ End Subdivide.
 
 (** the ANSI block comment matcher *)
 Definition block_comment_elems (s : str) : list elem := subdivide KComment KNewline KWhitespace s.
+
+(** * 3b. The native [block_comment] matcher (ansi.rs) on [Cursor] (lexer.rs)
+    [Cursor::shift] yields the next character or ['\0'] at the end, [Cursor::peek] looks one
+    character ahead, [Cursor::lexed] is the consumed prefix, whose *byte* length is what
+    [Pattern::matches] returns. The matcher only ever compares characters with ['/'], ['*'] and
+    ['\0'], which are single bytes in UTF-8 and never occur inside a multi-byte sequence, so the
+    scan is modelled on bytes; [pos] is the number of bytes consumed. [depth] is the number of
+    *enclosing* comments still open (Rust's [depth - 1]).
+    [None]: the matcher returns [false] (no match). *)
+Fixpoint bc_scan (s : str) (depth : nat) (pos : N) : option N :=
+  match s with
+  | [] => None                                   (* shift at the end gives '\0' *)
+  | b :: s' =>
+      if b =? 0 then None                        (* a NUL character reads as the end *)
+      else match s' with
+           | [] => None                          (* no pair can start here; the next shift is '\0' *)
+           | c :: s'' =>
+               if (b =? 47) && (c =? 42) then bc_scan s'' (S depth) (pos + 2)
+               else if (b =? 42) && (c =? 47) then
+                 match depth with
+                 | O => Some (pos + 2)
+                 | S d => bc_scan s'' d (pos + 2)
+                 end
+               else bc_scan s' depth (pos + 1)
+           end
+  end.
+(** byte length of the block comment at the head of [s] *)
+Definition block_comment_match (s : str) : option N :=
+  match s with
+  | 47 :: 42 :: s' => bc_scan s' O 2
+  | _ => None
+  end.
+(** [Matcher::matches] of the ANSI block comment matcher: elements and the remaining text *)
+Definition block_comment_lex (s : str) : option (list elem * str) :=
+  match block_comment_match s with
+  | None => None
+  | Some n => Some (block_comment_elems (take n s), drop n s)
+  end.
+
+(** comment bodies of the perturbation class: no NUL, no comment opener or closer inside, and
+    no ['/'] at the very end (it would pair with the closing ['*']) *)
+Fixpoint clean_body (s : str) : bool :=
+  match s with
+  | [] => true
+  | b :: s' =>
+      negb (b =? 0) &&
+      match s' with
+      | [] => negb (b =? 47)
+      | c :: _ => negb ((b =? 47) && (c =? 42)) && negb ((b =? 42) && (c =? 47))
+      end && clean_body s'
+  end.
+Definition comment_of (body : str) : str := 47 :: 42 :: body ++ [42; 47].
 
 (** * 4. The code-only view of a tree *)
 Inductive tree :=
